@@ -1559,7 +1559,7 @@ impl World {
         let mut ev = Eval::new(&w.model, &env);
         let inuse: Vec<usize> = (0..w.observers.len()).filter(|o| w.observers[*o].state == ObsState::InUse).collect();
         let (cs, ce) = {
-            let mut c = Cone::new(&mut ev, ConeMode::Start);
+            let mut c = Cone::new(&mut ev, ConeMode::StartUnder);
             for o in &inuse {
                 c.visit(w.observers[*o].node);
             }
